@@ -201,9 +201,10 @@ package jsonschema
 //@   requires newOrNil(stk0)
 //@   requires stackOK: forall i int {stk0[i]} :: 0 <= i && i < len(stk0) ==> inRS(rs, stk0[i])
 //@   requires annsOK: callerAnns != nil ==> annsOwned(callerAnns)
-//@   modifies st.stack, callerAnns.allItems, callerAnns.endIndex, callerAnns.evaluatedIndexes, callerAnns.allProperties, callerAnns.evaluatedProperties, callerAnns.evaluatedIndexes.entries, callerAnns.evaluatedProperties.entries
+//@   modifies st.stack, st.stack.elems, callerAnns.allItems, callerAnns.endIndex, callerAnns.evaluatedIndexes, callerAnns.allProperties, callerAnns.evaluatedProperties, callerAnns.evaluatedIndexes.entries, callerAnns.evaluatedProperties.entries
 //@   ensures[C06,C10] stacklen: len(st.stack) == len(stk0)
 //@   ensures[C06,C10] stackelems: newOrNil(st.stack) && (forall i int {st.stack[i]} :: 0 <= i && i < len(stk0) ==> st.stack[i] == old(stk0[i]))
+//@   ensures stackarr: isnil(st.stack) || st.stack.arr == stk0.arr || fresh(st.stack)
 //@   ensures annsOK: callerAnns != nil ==> annsOwned(callerAnns)
 //@   ensures mapsI: callerAnns != nil ==> (callerAnns.evaluatedIndexes == old(callerAnns.evaluatedIndexes) || fresh(callerAnns.evaluatedIndexes))
 //@   ensures mapsP: callerAnns != nil ==> (callerAnns.evaluatedProperties == old(callerAnns.evaluatedProperties) || fresh(callerAnns.evaluatedProperties))
@@ -220,10 +221,11 @@ package jsonschema
 //@   loopinv c5: callerAnns != nil ==> newOrNil(callerAnns.evaluatedProperties) && newOrNil(old(callerAnns.evaluatedProperties)) && (forall k string :: has(callerAnns.evaluatedProperties, k) == old(has(callerAnns.evaluatedProperties, k)))
 //@   loopinv shaped: shaped(instance)
 //@   loopinv stacklen: len(st.stack) == len(stk0) + 1
-//@   loopinv stackelems: new(st.stack) && (forall i int {st.stack[i]} :: 0 <= i && i < len(stk0) ==> st.stack[i] == old(stk0[i])) && st.stack[len(stk0)] == schema
-//@   loopinv stackrs: new(st.stack) && (forall i int {st.stack[i]} :: 0 <= i && i < len(st.stack) ==> inRS(rs, st.stack[i]))
+//@   loopinv stackelems: new(st.stack) && fresh(st.stack) && (forall i int {st.stack[i]} :: 0 <= i && i < len(stk0) ==> st.stack[i] == old(stk0[i])) && st.stack[len(stk0)] == schema
+//@   loopinv stackrs: new(st.stack) && fresh(st.stack) && (forall i int {st.stack[i]} :: 0 <= i && i < len(st.stack) ==> inRS(rs, st.stack[i]))
 //@   loopinv anns: annsLocal(anns)
 //@   loop "range instance.Len()#2"
+//@     invariant buckets: new(hashes) && (forall h int {has(hashes, h)} :: has(hashes, h) ==> newOrNil(hashes[h]) && allocated(hashes[h]) && (isnil(hashes[h]) || fresh(hashes[h])))
 //@     invariant hashes: new(hashes) && (forall h int, k int :: has(hashes, h) ==> newOrNil(hashes[h]) && allocated(hashes[h]) && (0 <= k && k < len(hashes[h]) ==> 0 <= hashes[h][k] && hashes[h][k] < rvlen(instance)))
 
 //@ contract property(v, name)
